@@ -30,11 +30,10 @@ PlainPos(tr) == IF tr.hasSrc
 NonOverl(tr, kk) == \A q \in 1..(kk - 1) : tr.anns[q][2] <= tr.anns[kk][1]
 Judged(tr, kk)   == tr.anns[kk][1] < tr.anns[kk][2] /\ NonOverl(tr, kk)
 PosOfB(its, kk)  == {x \in DOMAIN its : its[x].k = "B" /\ its[x].id = kk}
-(* ... and the engine returned the unique minimal (insert-only) script: difflib's
-   SequenceMatcher is a heuristic and may return a non-minimal script for repeated lines;
-   the exact-enclosure clause presupposes the minimal diff (C10 quantifier text), which the
-   default engine (diff-match-patch, no clean-up, no time limit) promises and difflib does not *)
-ForcedAlign(tr)  == tr.hasSrc => (tr.dmp \/ tr.minimal) /\ [y \in DOMAIN PlainPos(tr) |-> tr.target[PlainPos(tr)[y] + 1]] = tr.plain
+(* The premise is about the INPUT only.  (difflib's SequenceMatcher is a heuristic and can return a
+   non-minimal script for plain texts with repeated lines; that makes this clause fail for
+   use_dmp=False on such inputs -- recorded as an open known finding, see known_findings.json.) *)
+ForcedAlign(tr)  == tr.hasSrc => [y \in DOMAIN PlainPos(tr) |-> tr.target[PlainPos(tr)[y] + 1]] = tr.plain
 (* the premise of C11: the source is well-formed markup and the plain text is its text content *)
 C11Domain(tr) == tr.hasSrc /\ tr.src_wf /\ tr.src_tc = tr.plain
 HasTag(tr) == \E y \in DOMAIN tr.target : tr.target[y] = 60
